@@ -569,9 +569,16 @@ class Builtins:
                 p.add(z3.Length(r) == c)
                 p.add(z3.Implies(ln >= c, r == z3.Extract(v.z, I(0), c)))
                 p.add(z3.Implies(ln < c, z3.And(z3.Extract(r, I(0), ln) == v.z,
-                                                z3.ForAll([j], z3.Implies(z3.And(ln <= j, j < c), r[j] == 0),
-                                                          patterns=[r[j]]))))
-                chunks.append(z3.If(ln == c, v.z, r))
+                                                z3.ForAll([j], z3.Implies(z3.And(ln <= j, j < c), r[j] == 0)))))
+                if isinstance(cnt, int) and 0 < cnt <= 64:
+                    # fixed-width field: written out byte by byte so that later pack_into splices and
+                    # comparisons with the layout specification are structural
+                    units = [z3.Unit(z3.If(ln == c, v.z[k_], r[k_])) for k_ in range(cnt)]
+                    chunk = units[0] if cnt == 1 else z3.Concat(*units)
+                    p.add(z3.Implies(ln == c, v.z == chunk))
+                    chunks.append(chunk)
+                else:
+                    chunks.append(z3.If(ln == c, v.z, r))
             else:
                 if isinstance(v, VOpt):
                     errs.append((v.isnone, 'struct.error'))
@@ -590,6 +597,84 @@ class Builtins:
         errs, z = self.pack_items(ex, p, node, f, vals)
         return ex.lift(p, (VBytes(z) if z is not None else VNone, errs))
 
+    @staticmethod
+    def flatten(z):
+        """leaves of a concatenation tree, left to right"""
+        out = []
+        todo = [z]
+        while todo:
+            x = todo.pop()
+            if z3.is_app(x) and x.decl().kind() == z3.Z3_OP_SEQ_CONCAT:
+                todo.extend(reversed(x.children()))
+            else:
+                out.append(x)
+        return out
+
+    def splice(self, bufz, off, size, newz):
+        """buf[off:off+size] := newz done on the structure of the concatenation when the offset and size
+        are concrete and fall on leaf boundaries (same value as the extract form, easier for the solver)"""
+        o, sz = z3.simplify(off), z3.simplify(size)
+        if not (z3.is_int_value(o) and z3.is_int_value(sz)):
+            return None
+        o, sz = o.as_long(), sz.as_long()
+        leaves = self.flatten(bufz)
+        pos = 0
+        start = end = None
+        for i, leaf in enumerate(leaves):
+            if pos == o:
+                start = i
+            ln = z3.simplify(z3.Length(leaf))
+            if not z3.is_int_value(ln):
+                break
+            pos += ln.as_long()
+            if pos == o + sz and start is not None:
+                end = i + 1
+                break
+            if pos > o + sz:
+                break
+        if start is None or end is None:
+            return None
+        parts = leaves[:start] + [newz] + leaves[end:]
+        return parts[0] if len(parts) == 1 else z3.Concat(*parts)
+
+    def slice_structural(self, p, base, lo, hi):
+        """x[:-k] where x is a concatenation whose last leaf provably has length k: the other leaves
+        (same value as the generic extract form, but structural)"""
+        if lo is not None or hi is None or not isinstance(base, VBytes) or not ops.is_num(hi):
+            return None
+        leaves = self.flatten(base.z)
+        if len(leaves) < 2:
+            return None
+        h = ops.as_int(hi).z
+        if z3.is_int_value(z3.simplify(h)):
+            return None
+        last = leaves[-1]
+        s = z3.Solver()
+        s.set('timeout', 3000)
+        for c in p.pc:
+            s.add(c)
+        s.add(z3.Not(z3.And(h < 0, -h == z3.Length(last))))
+        if s.check() != z3.unsat:
+            return None
+        rest = leaves[:-1]
+        return VBytes(rest[0] if len(rest) == 1 else z3.Concat(*rest))
+
+    def splice_suffix(self, p, bufz, off, size, newz):
+        """buf[off:off+size] := newz when the range is provably exactly the last leaf of the
+        concatenation (checked with the solver under the path condition)"""
+        leaves = self.flatten(bufz)
+        if len(leaves) < 2:
+            return None
+        last = leaves[-1]
+        s = z3.Solver()
+        s.set('timeout', 3000)
+        for c in p.pc:
+            s.add(c)
+        s.add(z3.Not(z3.And(size == z3.Length(last), off == z3.Length(bufz) - z3.Length(last))))
+        if s.check() != z3.unsat:
+            return None
+        return z3.Concat(*(leaves[:-1] + [newz]))
+
     def b_struct_pack_into(self, ex, p, node, fmt, buf, offset, *vals):
         f = parse_fmt(fmt, ex.where(node))
         errs, z = self.pack_items(ex, p, node, f, vals)
@@ -599,7 +684,11 @@ class Builtins:
         size = f.size()
         n = z3.Length(buf.z)
         errs.append((z3.Or(off < 0, off + size > n), 'struct.error'))
-        newbuf = z3.Concat(z3.Extract(buf.z, I(0), off), z, z3.Extract(buf.z, off + size, n - off - size))
+        newbuf = self.splice(buf.z, off, size, z)
+        if newbuf is None:
+            newbuf = self.splice_suffix(p, buf.z, off, size, z)
+        if newbuf is None:
+            newbuf = z3.Concat(z3.Extract(buf.z, I(0), off), z, z3.Extract(buf.z, off + size, n - off - size))
 
         def k(p2, _):
             p2.add(z3.Length(newbuf) == n)
